@@ -378,6 +378,7 @@ def extra_phase(tier, master, facts, src, log):
 
     sweep = []
     seen_worlds = set()
+    seen_kinds = set()
     all_facts0 = tree.all_facts(src or runner.DEFAULT_SRC)
     for k, c12case in enumerate(_kind_sweep_cases(master, all_facts0)):
         flist = list(c12case["faults"])
@@ -387,6 +388,12 @@ def extra_phase(tier, master, facts, src, log):
         for j, f in enumerate(flist):
             if f["class"] not in ("config", "storage", "cmdline", "oddity") and c12case["opts"]["country"] != "us":
                 continue  # row-level and table-level kinds on the first world only; config / storage / command-line kinds and oddities on all four
+            if f["class"] not in ("config", "storage", "cmdline", "oddity"):
+                # C12's sweep meets each numeric kind with every row type; for confinement one row per (kind, table, field) is enough
+                k2 = (f["class"], f["kind"], f.get("table"), f.get("field"))
+                if k2 in seen_kinds:
+                    continue
+                seen_kinds.add(k2)
             # alternately into a separate output directory and into the directory that holds the input files themselves
             o = dict(c12case["opts"], outdir="out" if (k + j) % 2 == 0 else "INPUTDIR")
             if f.get("kind") == "json_format" or (k + j) % 4 == 1:
